@@ -6,6 +6,7 @@ every path after each operation.  The correspondence check ties model and real F
 import SwV.Model.C39
 import SwV.Spec.C39
 import SwV.Lemmas.C39
+import SwV.Gen.C39
 
 namespace SwV.Props.C39
 open SwV.Model.C39 SwV.Spec.C39 SwV.Lemmas.C39
@@ -130,5 +131,80 @@ theorem move_into_own_subtree_witness :
     let t' := (move t ["a"] ["a", "b"]).1
     SwV.Model.C39.get t' ["a", "b"] = some 1 ∧ SwV.Model.C39.get t' ["a", "b", "x"] = some 2 ∧
     SwV.Model.C39.get t' ["a"] = none ∧ SwV.Model.C39.get t' ["a", "x"] = none := by decide
+
+/-! ## T1 bridges: facts regenerated from the source by `extract` (props/C39/extract.json → `SwV.Gen.C39`)
+
+Each theorem states the text of the decisive Go statements as they stand in the working tree together with the
+model equation that mirrors them; an edit to the Go code changes the generated string and breaks the theorem of
+that name. -/
+
+/-- `doGetFsNode`: descend with `findChild`, stop at the first absent component, answer the `node` field -/
+theorem bridge_get :
+    SwV.Gen.C39.get_descend = "t = t.findChild(p)" ∧ SwV.Gen.C39.get_absent = "t == nil" ∧
+    SwV.Gen.C39.find_found = "found" ∧
+    (∀ (t : Node), sub t [] = some t) ∧
+    (∀ (t : Node) (x : Name) (p : Path), t.2.child x = none → sub t (x :: p) = none) ∧
+    (∀ (t c : Node) (x : Name) (p : Path), t.2.child x = some c → sub t (x :: p) = sub c p) ∧
+    (∀ (t : Node) (p : Path), SwV.Model.C39.get t p = (sub t p).bind (·.1)) := by
+  refine ⟨by decide, by decide, by decide, fun _ => rfl, ?_, ?_, fun _ _ => rfl⟩
+  · intro t x p h; simp [sub, h]
+  · intro t c x p h; simp [sub, h]
+
+/-- `doSetFsNode` / `ensureChild` / `EnsureFsNode` -/
+theorem bridge_set_ensure :
+    SwV.Gen.C39.set_descend = "t = t.ensureChild(p)" ∧ SwV.Gen.C39.set_store = "t.node = node" ∧
+    SwV.Gen.C39.ensure_child_no_map = "n.children == nil" ∧ SwV.Gen.C39.ensure_child_found = "found" ∧
+    SwV.Gen.C39.ensure_child_store = "n.children[name] = t" ∧
+    SwV.Gen.C39.ensure_lookup = "t := c.doGetFsNode(path)" ∧ SwV.Gen.C39.ensure_cached = "t != nil" ∧
+    SwV.Gen.C39.ensure_store_path = "path" ∧ SwV.Gen.C39.ensure_store_node = "t" ∧
+    (∀ (t : Node) (v : Nat), setNode t [] v = (some v, t.2)) ∧
+    (∀ (t : Node) (x : Name) (p : Path) (v : Nat),
+      setNode t (x :: p) v = (t.1, t.2.setChild x (setNode ((t.2.child x).getD emptyNode) p v))) ∧
+    (∀ (t : Node) (p : Path) (v w : Nat), SwV.Model.C39.get t p = some w → ensureNode t p v = (t, w)) ∧
+    (∀ (t : Node) (p : Path) (v : Nat), SwV.Model.C39.get t p = none → ensureNode t p v = (setNode t p v, v)) := by
+  refine ⟨by decide, by decide, by decide, by decide, by decide, by decide, by decide, by decide, by decide,
+    fun _ _ => rfl, fun _ _ _ _ => rfl, ?_, ?_⟩
+  · intro t p v w h; simp [ensureNode, h]
+  · intro t p v h; simp [ensureNode, h]
+
+/-- `DeleteFsNode` / `disconnectChild` / `deleteSelf` -/
+theorem bridge_delete :
+    SwV.Gen.C39.del_descend = "t = t.findChild(p)" ∧ SwV.Gen.C39.del_absent = "t == nil" ∧
+    SwV.Gen.C39.del_has_parent = "t.parent != nil" ∧ SwV.Gen.C39.del_disconnect = "t" ∧
+    SwV.Gen.C39.disconnect_key = "child.name" ∧
+    SwV.Gen.C39.delete_self_children = "n.children = nil" ∧ SwV.Gen.C39.delete_self_node = "n.node = nil" ∧
+    (∀ (t : Node), remove t [] = emptyNode) ∧
+    (∀ (t : Node) (x : Name), remove t [x] = (t.1, t.2.delChild x)) ∧
+    (∀ (t : Node) (x y : Name) (p : Path), t.2.child x = none → remove t (x :: y :: p) = t) := by
+  refine ⟨by decide, by decide, by decide, by decide, by decide, by decide, by decide, fun _ => rfl, fun _ _ => rfl, ?_⟩
+  intro t x y p h; simp [remove, h]
+
+/-- `Move` / `connectToParent` -/
+theorem bridge_move :
+    SwV.Gen.C39.move_src_descend = "src = src.findChild(p)" ∧ SwV.Gen.C39.move_src_absent = "src == nil" ∧
+    SwV.Gen.C39.move_src_has_parent = "src.parent != nil" ∧ SwV.Gen.C39.move_src_disconnect = "src" ∧
+    SwV.Gen.C39.move_target_descend = "target = target.ensureChild(p)" ∧
+    SwV.Gen.C39.move_target_parent = "parent := target.parent" ∧
+    SwV.Gen.C39.move_target_disconnect = "target" ∧
+    SwV.Gen.C39.move_rename = "src.name = target.name" ∧ SwV.Gen.C39.move_connect = "parent" ∧
+    SwV.Gen.C39.connect_old = "oldNode := parent.findChild(n.name)" ∧
+    SwV.Gen.C39.connect_old_present = "oldNode != nil" ∧
+    SwV.Gen.C39.connect_store = "parent.children[n.name] = n" ∧
+    (∀ (t : Node) (old new : Path), old ≠ [] → new ≠ [] → sub t old = none → move t old new = (t, .absent)) ∧
+    (∀ (t s : Node) (old new : Path), old ≠ [] → new ≠ [] → sub t old = some s →
+      move t old new = (putSub (remove t old) new s, .ok)) ∧
+    (∀ (t s : Node) (x : Name), putSub t [x] s = (t.1, t.2.setChild x s)) := by
+  refine ⟨by decide, by decide, by decide, by decide, by decide, by decide, by decide, by decide, by decide,
+    by decide, by decide, by decide, ?_, ?_, fun _ _ _ => rfl⟩
+  · intro t old new ho hn h; simp [move, ho, hn, h]
+  · intro t s old new ho hn h; simp [move, ho, hn, h]
+
+/-- weakest supplement: hashes of the whole mirrored functions -/
+theorem bridge_pins :
+    SwV.Gen.C39.src_doGetFsNode = "5fcfde4392d43b37" ∧ SwV.Gen.C39.src_doSetFsNode = "9b1d673a075230b5" ∧
+    SwV.Gen.C39.src_EnsureFsNode = "e50997914ac04795" ∧ SwV.Gen.C39.src_DeleteFsNode = "b69f0a5377c3a9fb" ∧
+    SwV.Gen.C39.src_Move = "71094896c641c745" ∧ SwV.Gen.C39.src_connectToParent = "6d1abcc57b3ef0fd" ∧
+    SwV.Gen.C39.src_findChild = "78cd2ac0def0ce12" ∧ SwV.Gen.C39.src_ensureChild = "fd9dc62ad98b929d" ∧
+    SwV.Gen.C39.src_disconnectChild = "b00412ad498397f9" ∧ SwV.Gen.C39.src_deleteSelf = "e01515e2b650fcc5" := by decide
 
 end SwV.Props.C39
